@@ -856,3 +856,31 @@ mutant("c03-always-optimal", "C03", "R03.c", ORT,
 refactor("c03-r-sort-duration", "C03", ORT,
          "            sorted(\n                scheduled_operation, key=lambda x: (x.start_time, x.end_time)\n            )",
          "            sorted(\n                scheduled_operation, key=lambda x: (x.start_time, x.operation.duration)\n            )")
+
+# ------------------------------------------------------------------ C13
+mutant("c13-double-emit", "C13", "R13.a", REW,
+       "        reward = last_makespan - self.current_makespan\n        self.rewards.append(reward)",
+       "        reward = last_makespan - self.current_makespan\n        self.rewards.append(reward)\n        if reward < 0:\n            self.rewards.append(0)")
+mutant("c13-skip-zero", "C13", "R13.a", REW,
+       "        reward = -idle_time\n        self.rewards.append(reward)", "        reward = -idle_time\n        if reward:\n            self.rewards.append(reward)",
+       "no reward emitted when the machine was not idle")
+mutant("c13-sign", "C13", "R13.c", REW,
+       "        reward = last_makespan - self.current_makespan", "        reward = self.current_makespan - last_makespan")
+mutant("c13-start-time", "C13", "R13.c", REW,
+       "            last_makespan, scheduled_operation.end_time\n", "            last_makespan, scheduled_operation.start_time\n")
+mutant("c13-idle-not-negated", "C13", "R13.d", REW,
+       "        reward = -idle_time\n", "        reward = idle_time\n")
+mutant("c13-idle-other-machine", "C13", "R13.d", REW,
+       "        machine_id = scheduled_operation.machine_id\n        machine_schedule", "        machine_id = scheduled_operation.operation.machines[0]\n        machine_schedule",
+       "flexible operations: gap measured on the wrong machine")
+mutant("c13-idle-last-is-self", "C13", "R13.d", REW,
+       "        machine_schedule = self.dispatcher.schedule.schedule[machine_id][:-1]", "        machine_schedule = self.dispatcher.schedule.schedule[machine_id][:]",
+       "compares the new operation with itself")
+mutant("c13-step-previous-reward", "C13", "R13.b", ENV1,
+       "        self.dispatcher.dispatch(operation, machine_id)\n\n        obs = self.get_observation()\n        reward = self.reward_function.last_reward",
+       "        reward = self.reward_function.last_reward\n        self.dispatcher.dispatch(operation, machine_id)\n\n        obs = self.get_observation()")
+mutant("c13-last-reward-first", "C13", "R13.a", REW,
+       "        return self.rewards[-1] if self.rewards else 0", "        return self.rewards[0] if self.rewards else 0")
+refactor("c13-r-inline", "C13", REW,
+         "        reward = last_makespan - self.current_makespan\n        self.rewards.append(reward)",
+         "        self.rewards.append(last_makespan - self.current_makespan)")
